@@ -9,7 +9,7 @@ git clone -q /repo $SNAP || exit 2
 EV=$(mktemp -d /dev/shm/regress-ev.XXXXXX)
 for d in seeded/$G/; do
   n=$(basename $d)
-  prop=$(python3 -c "import json; print(json.load(open('$d/meta.json'))['property'])")
+  prop=$(python3 -c "import json; m=json.load(open('$d/meta.json')); print(m.get('regress_property', m['property']))")
   git -C $SNAP checkout -q -- . ; git -C $SNAP clean -qfd
   if ! git -C $SNAP apply /verif/$d/patch.diff; then echo "$n prop=$prop rc=patch-does-not-apply"; continue; fi
   BIN=/verif/bin/verifsim.regress.$$
